@@ -168,7 +168,7 @@ func closedTestOnSocketError(c *Ctx, cond ssa.Value) bool {
 			return false
 		}
 		n := eng.CalleeName(&cc.Call)
-		return isBlockingSocketCall(cc) || strings.HasPrefix(n, "dyn:service.StreamAcceptFunc") || strings.HasPrefix(n, "dyn:")
+		return isBlockingSocketCall(cc) || strings.HasPrefix(n, "dyn:service.StreamAcceptFunc") || strings.HasPrefix(n, "dyn:") || isReadWrapperCall(c, cc)
 	})
 	return all
 }
